@@ -159,6 +159,48 @@ fn groups(r: &mut Rng) -> (Vec<Stanza>, Vec<String>) {
             ],
         ));
     }
+    if r.chance(1, 4) {
+        // an inherited variable shadowed on a nearer node: readers must see the nearest
+        // definition whichever stanza comes first
+        if !inherits.contains(&"sc".to_string()) {
+            inherits.push("sc".into());
+        }
+        out.push(st("(module) @m", vec![Stmt::Let(VarRef::Scoped(cap("m"), "sc".into()), Expr::Str("module".into()))]));
+        out.push(st("(function_definition) @f", vec![Stmt::Let(VarRef::Scoped(cap("f"), "sc".into()), Expr::Str("function".into()))]));
+        let reader = |q: &str, c: &str| {
+            st(q, vec![
+                Stmt::Node(VarRef::Local("rn".into())),
+                Stmt::AttrNode(Expr::Var("rn".into()), vec![("seen".into(), sc(c, "sc")), ("at".into(), call("start-row", vec![cap(c)])), ("ty".into(), call("node-type", vec![cap(c)]))]),
+            ])
+        };
+        out.push(reader("(function_definition) @g", "g"));
+        if r.chance(1, 2) {
+            out.push(reader("(return_statement) @rs", "rs"));
+        }
+        if r.chance(1, 2) {
+            out.push(reader("(expression_statement) @es", "es"));
+        }
+    }
+    if r.chance(1, 5) {
+        // one capture name with different quantifiers in different stanzas
+        out.push(st(
+            "(module (_)* @it) @_m",
+            vec![Stmt::For("x".into(), cap("it"), vec![Stmt::Node(VarRef::Local("qn".into())), Stmt::AttrNode(Expr::Var("qn".into()), vec![("k".into(), call("node-type", vec![Expr::Var("x".into())]))])])],
+        ));
+        out.push(st(
+            "(identifier) @it",
+            vec![Stmt::Node(VarRef::Local("qn".into())), Stmt::AttrNode(Expr::Var("qn".into()), vec![("t".into(), call("source-text", vec![cap("it")]))])],
+        ));
+        if r.chance(1, 2) {
+            out.push(st(
+                "(return_statement (_)? @it) @_r",
+                vec![Stmt::If(vec![
+                    gen::IfArm { conds: vec![gen::Cond::Some(cap("it"))], body: vec![Stmt::Node(VarRef::Local("qn".into())), Stmt::AttrNode(Expr::Var("qn".into()), vec![("r".into(), call("node-type", vec![cap("it")]))])] },
+                    gen::IfArm { conds: vec![], body: vec![Stmt::Node(VarRef::Local("qn".into())), Stmt::AttrNode(Expr::Var("qn".into()), vec![("r".into(), Expr::Str("none".into()))])] },
+                ])],
+            ));
+        }
+    }
     if r.chance(1, 5) {
         // near misses of the locality rule: a value derived from a scoped variable in an
         // eagerly evaluated position.  The loader must reject these in every order; were it
@@ -228,10 +270,19 @@ pub fn make_case(ctx: &ShardCtx, i: u64) -> Case {
     }
     // deliberately failing variants: the failure must not depend on the order either
     if r.chance(1, 6) {
-        match r.below(3) {
+        match r.below(4) {
             0 => stanzas.push(st("(identifier) @z", vec![Stmt::AttrNode(sc("z", "nd"), vec![("text".into(), Expr::Str("conflict".into())), ("row".into(), Expr::Str("conflict".into()))])])),
             1 => stanzas.push(st("(identifier) @z", vec![Stmt::Node(VarRef::Local("q".into())), Stmt::AttrNode(Expr::Var("q".into()), vec![("v".into(), sc("z", "never_defined"))])])),
-            _ => stanzas.push(st("(identifier) @z", vec![Stmt::Node(VarRef::Scoped(cap("z"), "nd".into()))])),
+            2 => stanzas.push(st("(identifier) @z", vec![Stmt::Node(VarRef::Scoped(cap("z"), "nd".into()))])),
+            _ => {
+                // the same variable defined twice on one node, once through a capture and once
+                // through a local holding the node: a duplicate in every order
+                stanzas.push(st("(module) @da", vec![Stmt::Let(VarRef::Scoped(cap("da"), "dup".into()), Expr::Str("capture".into()))]));
+                stanzas.push(st(
+                    "(module) @db",
+                    vec![Stmt::Let(VarRef::Local("loc".into()), cap("db")), Stmt::Let(VarRef::Scoped(Expr::Var("loc".into()), "dup".into()), Expr::Str("local".into()))],
+                ));
+            }
         }
     }
     // spread the number of stanzas: all orders are enumerated only up to five
@@ -252,7 +303,7 @@ pub fn make_case(ctx: &ShardCtx, i: u64) -> Case {
     }
     r.shuffle(&mut stanzas);
     prog.stanzas = stanzas;
-    let mut source = String::from("foo(x, y)\nx = y\ny = x\n");
+    let mut source = String::from("foo(x, y)\nx = y\ny = x\ndef fn1(a):\n    b = a\n    return b\n");
     source.push_str(&pysrc::gen_source(
         &mut Rng::sub(seed, "src"),
         &pysrc::SrcCfg { max_stmts: if ctx.tier == Tier::Quick { 6 } else { 12 }, ..Default::default() },
@@ -365,7 +416,20 @@ fn check_case(case: &Case, only: Option<Vec<usize>>) -> (Stats, Option<Found>) {
         }
     };
     st.executions += 1;
-    if let Outcome::Panic(_) = id_out {
+    if let Outcome::Panic(m) = &id_out {
+        // a panic in every order is C05's business; a panic in some orders only depends on
+        // the order
+        if only.is_none() {
+            let (perms, _) = permutations(n, &mut Rng::sub(case.hash_seed, "perms"));
+            for p in perms {
+                if let Ok(o) = run_one(&case.prog.permuted(&p).render(), &case.source, &case.globs) {
+                    st.executions += 1;
+                    if !matches!(o, Outcome::Panic(_)) {
+                        return (st, Some(Found { class: "panic-under-order", perm: p, detail: format!("the identity order panicked ({}) but this order does not: {}", m, o.brief().chars().take(200).collect::<String>()) }));
+                    }
+                }
+            }
+        }
         st.discarded = true;
         return (st, None);
     }
@@ -479,7 +543,8 @@ pub fn replay(sc: &J) -> Result<Option<(String, String)>, String> {
             Err(e) => return Ok(Some(("order-rejected-by-loader".into(), e))),
         };
         Ok(match (&a, &b) {
-            (_, Outcome::Panic(m)) => Some(("panic-under-order".into(), m.clone())),
+            (Outcome::Panic(_), Outcome::Panic(_)) => None,
+            (_, Outcome::Panic(m)) | (Outcome::Panic(m), _) => Some(("panic-under-order".into(), m.clone())),
             (Outcome::Graph(x), Outcome::Graph(y)) => match canon::iso_eq(x, y) {
                 Some(false) => Some(("graph-depends-on-order".into(), format!("{} vs {}", x.digest(), y.digest()))),
                 _ => None,
